@@ -1421,6 +1421,31 @@ def savable_members(doc):
             bad.append('a state that records no loader was resolved through the loader recorded in a state loaded EARLIER with the same context')
     except Exception as e:  # noqa
         bad.append(f'two loads through one shared context raised {type(e).__name__}: {e}')
+    # ---- a per-save custom loader with its OWN identifier scheme: nested Savables are saved through it as well, so that what it saved
+    #      it can load
+    class Strict(loaders.ObjectLoader):
+        def identify_object(self, obj):
+            return 'strict!' + loaders.get_object_loader().identify_object(obj)
+
+        def load_object(self, identifier):
+            if not identifier.startswith('strict!'):
+                raise ValueError(f'Strict loader cannot load the foreign identifier {identifier!r}')
+            return loaders.get_object_loader().load_object(identifier[len('strict!'):])
+    Strict.__qualname__ = 'Strict'
+    Strict.__module__ = __name__
+    globals()['Strict'] = Strict
+    try:
+        sctx = persistence.LoadSaveContext(loader=Strict())
+        st_ = Outer(Inner([7])).save(sctx)
+        back = persistence.Savable.load(st_, persistence.LoadSaveContext(loader=Strict()))
+        if type(back).__name__ != 'Outer' or type(back.nested).__name__ != 'Inner' or back.nested.value != [7]:
+            bad.append(f'round trip through a strict per-save loader: got {type(back).__name__} / {type(back.nested).__name__}')
+        again = Outer.recreate_from(st_)          # the loader recorded in the state (no loader in the context)
+        if type(again.nested).__name__ != 'Inner':
+            bad.append('recreate_from with the recorded strict loader: the nested member is a ' + type(again.nested).__name__)
+    except Exception as e:  # noqa
+        bad.append(f'an object with a nested Savable saved with a per-save custom loader (own identifier scheme) cannot be loaded through '
+                   f'that loader: {type(e).__name__}: {e}')
     # ---- futures: restored pending, resolved (falsy results too), failed or cancelled as they were -- on their own and as members
     import asyncio as _aio
     _loop = _aio.new_event_loop()
